@@ -173,10 +173,15 @@ func (o *Array) BinaryOp(op token.Token, rhs Object) (Object, error) {
 	if rhs, ok := rhs.(*Array); ok {
 		switch op {
 		case token.Add:
-			if len(rhs.Value) == 0 {
-				return o, nil
-			}
-			return &Array{Value: append(o.Value, rhs.Value...)}, nil
+			// build the result in fresh storage, also when rhs is empty:
+			// appending to o.Value would write into its spare capacity,
+			// which an earlier result of the same operand (or a slice of
+			// it) may still be using, and returning o itself would make the
+			// result an alias of the operand
+			res := make([]Object, 0, len(o.Value)+len(rhs.Value))
+			res = append(res, o.Value...)
+			res = append(res, rhs.Value...)
+			return &Array{Value: res}, nil
 		}
 	}
 	return nil, ErrInvalidOperator
@@ -399,7 +404,11 @@ func (o *Bytes) BinaryOp(op token.Token, rhs Object) (Object, error) {
 			if len(o.Value)+len(rhs.Value) > MaxBytesLen {
 				return nil, ErrBytesLimit
 			}
-			return &Bytes{Value: append(o.Value, rhs.Value...)}, nil
+			// fresh storage, see Array.BinaryOp
+			res := make([]byte, 0, len(o.Value)+len(rhs.Value))
+			res = append(res, o.Value...)
+			res = append(res, rhs.Value...)
+			return &Bytes{Value: res}, nil
 		}
 	}
 	return nil, ErrInvalidOperator
